@@ -59,6 +59,13 @@ def gen(rng, tier):
               ["phrase", [8, 9]], ["phrase", [1, 2]], ["phrase", [7, 8]], ["tf", 4]]
         cases.append({"docs": docs, "truncate": trunc, "opts": {"batch_size": rng.choice([1, 2, 3, 100000]), "workers": rng.choice([1, 2])},
                       "queries": qs})
+    # every indexing path must reject / truncate: workers = 1 takes build_index_no_workers, workers > 1 the thread pool
+    for w in (1, 2, 4):
+        for trunc in (False, True):
+            big = {"fill": [1, 2], "len": LIMIT + 1 + (w % 2), "marks": {str(LIMIT - 1): 7, str(LIMIT): 5}}
+            docs = [[3, 4], big] if w != 2 else [big, [3, 4]]
+            cases.append({"docs": docs, "truncate": trunc, "opts": {"batch_size": rng.choice([1, 100000]), "workers": w},
+                          "queries": [["tf", 7], ["tf", 5], ["lens"], ["df", 5]]})
     # small-scale sanity: ordinary documents are never altered by truncate=True
     for _ in range(n):
         docs, _ = K.gen_docs(rng, n_docs=rng.randint(1, 6), maxlen=30, vocab=5)
